@@ -713,8 +713,8 @@ def run(ctx):
                      "fine_edges_are_shared_faces, uncg_even / uncg_dropped_zero / uncg_group_total, identity_map, identity_state, generated "
                      "subscripts / tests / statement inventory.  'simulating with the identity map reproduces the plain simulation' rests on "
                      "identity_map + C15 (grid = its graph) on the theorem side and is run on the three rebuilt engines here")
-    n_valid = ctx.n(340, 8000)
-    n_invalid = ctx.n(120, 2500)
+    n_valid = ctx.n(280, 8000)
+    n_invalid = ctx.n(100, 2500)
     cases = [gen_case(rng) for _ in range(n_valid)] + [gen_case(rng, invalid=True) for _ in range(n_invalid)] + \
             [gen_case(rng, periodic=True) for _ in range(ctx.n(6, 100))]
     # the seeded / documented example: dropping cells of two environments
